@@ -44,8 +44,8 @@ PROPS = {
               "Gx.C07.bodySlots_congr", "Gx.C07.rlStore_nonstiff", "Gx.C07.rlStore_stiff", "Gx.C07.hybrid_aliases", "Gx.checkScheme_sound"] + COMMON,
              ["Gx.Pins.scheme_aliases"],
              ns.make_run(ns.c07_case, 30, 1200, ns.scheme_cfg), ns.c07_case),
-    "C08": P("GotranxProofs.Properties.C08 GotranxProofs.KahnComplete",
-             ["Gx.Kahn.staticOrder_complete", "Gx.Kahn.staticOrder_correct", "Gx.C08.seqCheck_pairwise", "Gx.C08.seqCheck_sound", "Gx.C08.sameDefinition_eq", "Gx.C08.sameDefinition_trans",
+    "C08": P("GotranxProofs.Properties.C08 GotranxProofs.KahnComplete GotranxProofs.LoaderWF",
+             ["Gx.coreLoad_wf", "Gx.loadStringP_wf", "Gx.compOf_ok", "Gx.allAtoms_names_nodup", "Gx.Kahn.staticOrder_complete", "Gx.Kahn.staticOrder_correct", "Gx.C08.seqCheck_pairwise", "Gx.C08.seqCheck_sound", "Gx.C08.sameDefinition_eq", "Gx.C08.sameDefinition_trans",
               "Gx.C08.sameDefinition_symm"],
              ["Gx.Pins.grammar_blocks"],
              ts.c08_run, ts.c08_case),
@@ -55,8 +55,8 @@ PROPS = {
               "Gx.C09.history_invariant", "Gx.C09.emitted_name_history_free", "Gx.sortNames_perm", "Gx.sortByName_perm", "Gx.sortByName_sorted"],
              ["Gx.Pins.scheme_aliases"],
              ts.c09_run, ts.c09_case),
-    "C10": P("GotranxProofs.Properties.C10",
-             ["Gx.C10.sortByName_canonical", "Gx.C10.model_of_perm", "Gx.C10.code_of_equal_models", "Gx.C09.sort_iter_invariant",
+    "C10": P("GotranxProofs.Properties.C10 GotranxProofs.LoaderPerm",
+             ["Gx.model_perm_invariant", "Gx.mem_allAtoms_iff", "Gx.buildComps_present", "Gx.C10.sortByName_canonical", "Gx.C10.model_of_perm", "Gx.C10.code_of_equal_models", "Gx.C09.sort_iter_invariant",
               "Gx.C09.layout_iter_invariant", "Gx.sortByName_perm", "Gx.sortByName_sorted"],
              ["Gx.Pins.grammar_blocks"],
              ts.c10_run, ts.c10_case),
